@@ -478,6 +478,47 @@ impl chain::Listen for Responder {
     }
 }
 
+/// Verification hooks (feature `verif`, off by default): read-only projection of the in-memory state.
+#[cfg(feature = "verif")]
+pub struct VerifResponderState {
+    /// (txid, block hash, height reported by the index for that block) for every entry of the tx index.
+    pub index: Vec<(Txid, BlockHash, Option<usize>)>,
+    /// Raw UUIDs of the trackers flagged as reorged.
+    pub reorged: Vec<Vec<u8>>,
+    /// The carrier's block height.
+    pub carrier_height: u32,
+    /// The receipts memoised by the carrier.
+    pub carrier_receipts: Vec<(Txid, ConfirmationStatus)>,
+}
+
+#[cfg(feature = "verif")]
+impl Responder {
+    pub fn verif_state(&self) -> VerifResponderState {
+        let (carrier_height, carrier_receipts) = self.carrier.lock().unwrap().verif_state();
+        let index = {
+            let tx_index = self.tx_index.lock().unwrap();
+            tx_index
+                .verif_entries()
+                .into_iter()
+                .map(|(txid, hash)| (txid, hash, tx_index.get_height(&hash)))
+                .collect()
+        };
+        let reorged = self
+            .reorged_trackers
+            .lock()
+            .unwrap()
+            .iter()
+            .map(|uuid| uuid.to_vec())
+            .collect();
+        VerifResponderState {
+            index,
+            reorged,
+            carrier_height,
+            carrier_receipts,
+        }
+    }
+}
+
 #[cfg(test)]
 mod tests {
     use super::*;
